@@ -122,6 +122,24 @@ func (w *World) Eventually(within time.Duration, cond func() bool) bool {
 	}
 }
 
+// Bounded runs f in a task of its own and waits for it for at most within (simulated time).
+// Scenarios use it for calls that are not the subject of a timing rule but could block for
+// ever (clean-up mostly): a run whose main task hangs ends on the simulated-time budget instead
+// of at its end, which says less. It returns false when f has not returned in time (f is left
+// behind and goes away with the run); what is counted under "blocked: <what>".
+func (w *World) Bounded(what string, within time.Duration, f func()) bool {
+	done := NewFlag()
+	go func() {
+		defer done.Set()
+		f()
+	}()
+	if done.WaitFor(within) {
+		return true
+	}
+	w.Count("blocked: " + what)
+	return false
+}
+
 // Flag is a one-shot event with a value, safe for tasks.
 type Flag struct {
 	mu   sync.Mutex
